@@ -332,6 +332,16 @@ def _init_contract(shape, ptype, seqtype, envtype, addedtype):
 _init_str = _init_contract('str', STR, Seq(STR), STR, Seq(STR))
 _init_path = _init_contract('added_sys_path of Path', STR, Seq(STR), STR, Seq(PATH))
 
+_cfg_folder = Contract(
+    id='C20.Project._get_config_folder_path', prop='C20',
+    clause='save() and load() address the same place: the configuration folder of a project directory is <dir>/.jedi, a '
+           'function of the directory alone (_get_json_path on top of it calls it through the class object, which is '
+           'outside the subset: covered by the round trips of the Project.__init__ replay library and the stand-in)',
+    file='jedi/api/project.py', qualname='Project._get_config_folder_path',
+    params={'base_path': PATH}, ret=PATH,
+    ensures=['result == base_path.joinpath(".jedi")'],
+)
+
 FAMILIES = [
     Family('ProjectInit20', fields={'_path': PATH, '_sys_path': Opt(Seq(STR)), '_smart_sys_path': BOOL,
                                      '_django': BOOL, 'added_sys_path': Seq(STR), '_environment_path': Opt(STR),
@@ -352,7 +362,7 @@ FAMILIES = [
                                                     note='memoised on the environment: the same list on every call')}),
 ]
 
-CONTRACTS = [_dedup, _base, _get_sys_path, _swm, _init_str, _init_path]
+CONTRACTS = [_dedup, _base, _get_sys_path, _swm, _init_str, _init_path, _cfg_folder]
 
 
 def register(reg):
